@@ -33,6 +33,8 @@ func (Area) Exec(input string) string {
 		return execWSUp(f)
 	case "glue":
 		return execGlue(f)
+	case "cr":
+		return execCR(f)
 	}
 	return "BADOP"
 }
@@ -114,9 +116,19 @@ var ctypeMenu = [][]string{
 
 var errCodes = []int{1, 2, 3, 4, 5, 6, 7, 8, 9, 10, 11, 12, 13, 14, 15, 16, 17, 99}
 
-func randEnd(r *rand.Rand) string {
+// invalidUTF8Msgs: status messages that are not valid UTF-8 (only for WebSocket cases, where the message ends up in the
+// close reason; over HTTP such a status cannot be marshaled and is rendered as plain text — error rendering, C10)
+var invalidUTF8Msgs = []string{
+	"bad \xff\xfe bytes", strings.Repeat("a", 107) + "\xe4\xb8", strings.Repeat("a", 106) + "\xf0\x9f\x98" + "zz", strings.Repeat("\x80", 150),
+	strings.Repeat("a", 105) + "\xed\xa0\x80\xed\xa0\x80", strings.Repeat("é", 50) + "\xc3" + strings.Repeat("世", 20),
+}
+
+func randEnd(r *rand.Rand, allowInvalidUTF8 bool) string {
 	if r.Intn(3) > 0 {
 		return "ok"
+	}
+	if allowInvalidUTF8 && r.Intn(4) == 0 {
+		return fmt.Sprintf("e%d:%s", common.Pick(r, errCodes), common.HexS(common.Pick(r, invalidUTF8Msgs)))
 	}
 	msg := common.Pick(r, []string{"boom", "", "something failed: x", "naïve ünïcödé message", strings.Repeat("long ", 30),
 		strings.Repeat("é", 70), strings.Repeat("a", 114) + "é", strings.Repeat("a", 113) + "é", strings.Repeat("a", 112) + "世",
@@ -152,7 +164,7 @@ func genHTTP(r *rand.Rand, maxMsgs int) string {
 	for i := 0; i < n; i++ {
 		msgs = append(msgs, randText(r, 300))
 	}
-	end := randEnd(r)
+	end := randEnd(r, false)
 	if !ss && end != "ok" {
 		msgs = nil
 	}
@@ -222,7 +234,7 @@ func genWS(r *rand.Rand, maxFrames int) string {
 	for i := 0; i < nr; i++ {
 		resp = append(resp, randText(r, 200))
 	}
-	end := randEnd(r)
+	end := randEnd(r, true)
 	closeMode := "srv"
 	readN := 0
 	if !terminal {
@@ -312,6 +324,16 @@ func (Area) Gen(r *rand.Rand, tier string, emit func(string)) {
 		}
 	}
 	note(fmt.Sprintf("glue sessions=%d", nGlue))
+	// closeReason / ValidUTF8 / ToValidUTF8 against the real functions: every malformed shape at every offset around
+	// the cut, then random byte strings with invalid sequences at the cut point
+	crEdges(emit)
+	nCR := 400
+	if tier == "thorough" {
+		nCR = 20000
+	}
+	for i := 0; i < nCR; i++ {
+		emit(genCR(r))
+	}
 	for i := 0; i < nHTTP; i++ {
 		emit(genHTTP(r, maxMsgs))
 	}
